@@ -20,7 +20,7 @@ REQUIRED = {"mean_conserved": {"quick": 200, "thorough": 1000}, "mean_identity":
 ASSUMPTIONS = ["3D velocity mean conservation is asserted on divergence-free states only (mean N(u) = mean(u div u) otherwise)", "fixed points: |growth*dt| <= 5", "float64"]
 AMBIENT = True            # thorough tier: the repository's own test-suite runs under this property's general monitor (rv/ambient.py)
 REQUIRED_AMBIENT = {'ambient_mean_conserved': 60}
-TIMEOUT = {"quick": 900, "thorough": 3000}
+TIMEOUT = {"quick": 2400, "thorough": 7200}
 EPS = np.finfo(float).eps
 
 MEAN_CLASSES = ["stepper.Advection", "stepper.Diffusion", "stepper.AdvectionDiffusion", "stepper.Dispersion", "stepper.HyperDiffusion", "stepper.Burgers", "stepper.KortewegDeVries",
